@@ -162,6 +162,40 @@ pub fn run(thorough: bool) -> Vec<Part> {
         |bi| format!("block {}", bi),
     );
     t.record(&mut part, "one-shot-vs-connection");
+    if thorough {
+        // double corruptions of the first bases: a second single-point corruption (every third
+        // index) applied to every single-point corruption
+        let nb = bases.len().min(24);
+        let mut jobs: Vec<(usize, usize)> = vec![];
+        for b in 0..nb {
+            for k in 1..gen::corruption_count(bases[b].bytes.len()) {
+                jobs.push((b, k));
+            }
+        }
+        let bases2 = bases.clone();
+        let t3 = par_enum(
+            ((jobs.len() + 15) / 16) as u64,
+            workers(),
+            300,
+            move |blk, t| {
+                for &(b, k1) in jobs.iter().skip(blk as usize * 16).take(16) {
+                    let (w1, mid) = match gen::corrupt(&bases2[b].bytes, k1) {
+                        Some(x) => x,
+                        None => continue,
+                    };
+                    let mut k2 = 1 + (k1 % 3);
+                    while k2 < gen::corruption_count(mid.len()) {
+                        if let Some((w2, mid2)) = gen::corrupt(&mid, k2) {
+                            judge(&mid2, t, &format!("{} / {} then {}", bases2[b].name, w1, w2));
+                        }
+                        k2 += 3;
+                    }
+                }
+            },
+            |blk| format!("double corruption block {}", blk),
+        );
+        t3.record(&mut part, "double-corruptions");
+    }
     // header blocks longer than the receive buffer: every head size in a window of 1100
     // consecutive sizes, so that greedy reads end at every alignment relative to the head end
     let t2 = par_enum(
